@@ -69,9 +69,18 @@ fn main() {
             unsafe { std::env::set_var("RUST_BACKTRACE", "1") };
             let lang = args.get(2).cloned().unwrap_or_default();
             let text = std::fs::read_to_string(args.get(3).cloned().unwrap_or_default()).unwrap_or_default();
-            match lsp::reference::lints_for(&text, &lang, &lsp::reference::Settings::default(), &[], &[]) {
+            let words: Vec<String> = args.iter().skip(4).cloned().collect();
+            match lsp::reference::lints_for(&text, &lang, &lsp::reference::Settings::default(), &words, &[]) {
                 lsp::reference::Reference::Unsupported => println!("unsupported language"),
                 lsp::reference::Reference::Lints(r) => {
+                    if let Ok(w) = std::env::var("HSIM_SHOW_TOKEN") {
+                        for t in r.document.get_tokens() {
+                            let txt: String = r.source[t.span.start..t.span.end.min(r.source.len())].iter().collect();
+                            if txt.to_lowercase() == w.to_lowercase() {
+                                println!("token {:?} {:?} {:?}", t.span, txt, t.kind);
+                            }
+                        }
+                    }
                     for l in &r.lints {
                         println!("{:?} {}", l.span, l.message);
                     }
